@@ -246,15 +246,38 @@ Proof. vm_compute. reflexivity. Qed.
 From TV Require Import Model.C14_AsyncSM Proofs.C14_AsyncSM.
 
 (* driving an operation through AsyncStateMachine = running the generator to completion: for ANY
-   operation that yields only 0/1 (any number of suspensions) and ANY sequence of read/write
-   events of that length, next() is called once per event, no exception arises, completion is
-   reported exactly once and the machine is idle again *)
+   operation that suspends any number of times on 0 (wants read) or 1 (wants write) and ANY
+   sequence of read/write events of that length, next() is called once per event, no exception
+   arises, completion is reported exactly once and the machine is idle again.  Stated for a
+   handshake operation AND for a READ operation -- in particular a read that has to write
+   (answering KeyUpdate / close_notify / heartbeat / post-handshake auth under would-block yields
+   1): write events resume the reader and the data is delivered exactly once. *)
 Theorem asm_runs_generator_to_completion :
   forall ys evs, all01 ys = true -> length evs = length ys -> forallb is_io evs = true ->
-  snd (asm_trace (SetHandshake (yields01 ys) :: evs) asm_idle) = asm_idle /\
-  no_exn (fst (asm_trace (SetHandshake (yields01 ys) :: evs) asm_idle)) /\
-  events (fst (asm_trace (SetHandshake (yields01 ys) :: evs) asm_idle)) = [EConnect].
-Proof. exact asm_handshake_completes. Qed.
+  (snd (asm_trace (SetHandshake (yields01 ys) :: evs) asm_idle) = asm_idle /\
+   no_exn (fst (asm_trace (SetHandshake (yields01 ys) :: evs) asm_idle)) /\
+   events (fst (asm_trace (SetHandshake (yields01 ys) :: evs) asm_idle)) = [EConnect]) /\
+  (forall v, is01 v = false ->
+   snd (asm_trace (InRead (yields01 ys ++ [GY v]) :: evs) asm_idle) = asm_idle /\
+   no_exn (fst (asm_trace (InRead (yields01 ys ++ [GY v]) :: evs) asm_idle)) /\
+   events (fst (asm_trace (InRead (yields01 ys ++ [GY v]) :: evs) asm_idle)) = [ERead v]).
+Proof. exact (fun ys evs H1 H2 H3 =>
+  conj (asm_handshake_completes ys evs H1 H2 H3) (fun v Hv => asm_read_completes ys evs v H1 Hv H2 H3)). Qed.
+
+(* while a reader is suspended on a write the machine asks for a write event, and that event
+   (like a read event) resumes the reader *)
+Theorem asm_reader_waiting_to_write :
+  forall g c, is_io c = true ->
+  wants_write (running_rd 1 g) = Some true /\ wants_read (running_rd 1 g) = Some false /\
+  asm_call c (running_rd 1 g) = do_read g (running_rd 1 g).
+Proof. exact (fun g c Hc => conj (proj1 (reader_wants_write g)) (conj (proj2 (reader_wants_write g))
+                (io_call_running_rd 1 g c eq_refl Hc))). Qed.
+
+Example asm_read_that_writes_example :
+  fst (asm_trace [InRead [GY 0; GY 1; GY 1; GY 77]; InRead []; InWrite; InWrite] asm_idle)
+  = [([], None, Some true, Some false); ([], None, Some false, Some true);
+     ([], None, Some false, Some true); ([ERead 77], None, None, None)].
+Proof. vm_compute. reflexivity. Qed.
 
 (* single active operation: starting another one while one is active is refused *)
 Theorem asm_single_active :
